@@ -380,11 +380,22 @@ func nielsSwap(fn *ssa.Function) (a, b string, ok bool) {
 			continue
 		}
 		var plus, minus string
+		// fields are identified by the names they had when the rule was written (renamed unexported
+		// fields keep their identity, see load.AliasFieldNames), compared without case and underscores
+		names := make([]string, st.NumFields())
+		for j := range names {
+			names[j] = st.Field(j).Name()
+		}
+		if nm, ok := ptr.Elem().(*types.Named); ok && RecordedFieldNames != nil && nm.Obj().Pkg() != nil {
+			if rec := RecordedFieldNames(load.Rel(nm.Obj().Pkg()) + "." + nm.Obj().Name()); len(rec) == st.NumFields() {
+				names = load.AliasFieldNames(rec, st)
+			}
+		}
 		for j := 0; j < st.NumFields(); j++ {
-			switch strings.ToLower(st.Field(j).Name()) {
-			case "y_plus_x":
+			switch strings.ReplaceAll(strings.ToLower(names[j]), "_", "") {
+			case "yplusx":
 				plus = st.Field(j).Name()
-			case "y_minus_x":
+			case "yminusx":
 				minus = st.Field(j).Name()
 			}
 		}
@@ -394,6 +405,9 @@ func nielsSwap(fn *ssa.Function) (a, b string, ok bool) {
 	}
 	return "", "", false
 }
+
+// RecordedFieldNames, when set, returns the recorded field names of a named module struct type.
+var RecordedFieldNames func(typeKey string) []string
 
 // DualPair is one Add*/Sub* twin.
 type DualPair struct {
